@@ -16,21 +16,25 @@ CLAIMED = {
               '(monolithic or 2-4 segments with a tilt of its own per segment, plus a global tilt from a hundredth of a pixel to several '
               'times the output; scalar or per-axis output pixels; oversampling 1-3; prop_shape <= shape) is imaged by the real '
               'propagate_dft through every carrier -- Tilt planes split into 1-3 elements applied in seeded and reversed order, '
-              'Wavefront(tilt=), fit_tilt of the ramp-carrying OPD per segment, a fit / OPD-update / re-fit history, first-order '
-              'DispersiveTilt elements mixed with Tilt elements -- under cache-size faults, and compared with the eager twin (every tilt as '
+              'Wavefront(tilt=), fit_tilt of the ramp-carrying OPD per segment (OPD and amplitude arrays also Fortran-ordered, transposed, '
+              'strided or cropped views; copy and in-place forms), a fit / OPD-update / re-fit history, DispersiveTilt elements of trace/dispersion '
+              'order 1-3 on both sides of the reference wavelength mixed with Tilt elements, per-axis pupil sampling, output masks -- under '
+              'cache-size faults, and compared with the eager twin (every tilt as '
               'an OPD ramp in a monolithic pupil) on the samples every Field of both evaluates. Further oracles: Field.shift and the '
               'observed window placement equal the statement\'s displacement (focal_length*angle/du*oversample per axis, +x to increasing '
               'row, +y to decreasing column) and are additive and order-independent; fit_tilt leaves zero least-squares tip/tilt, keeps '
               'the piston and OPD + recorded tilt equals the original; dispersive displacements lie on the trace at the arc length the '
-              'dispersion maps to the wavelength (orders 1 and 2). Exploration.'),
+              'dispersion maps to the wavelength (orders 1-3, positive and negative arc lengths; the twin of a dispersive carrier gets the '
+              'displacement from an independent root/arc-length solver). Exploration.'),
         note=('The eager twin is imaged by the same propagate_dft, so an error common to both sides (C02) is invisible. Comparison is on '
               'the common domain only; window positions are not judged within 1e-6 of a non-zero integer displacement. The history '
               'dimension (re-fit, ordering) is real; the rest is a differential on pure functions, as DESIGN.md section 3 says.')),
     'C07': dict(
         design='7.6',
         text=('Seeded deterministic simulation reaching wavefront states through programs: 1-4 plane multiplications (default, scalar '
-              'and array planes of even/odd/non-square shapes, monolithic or 2-4 segment masks with overlapping bounding boxes, Tilt planes, '
-              'fitted pupils), optionally a DFT propagation (random shape, prop_shape, oversampling, output mask, per-axis pixels), an Image '
+              'and array planes of even/odd/non-square shapes, every amplitude/OPD/mask combination -- scalar amplitude with an array mask, mask '
+              'only, no OPD, boolean / integer masks, non-contiguous arrays --, monolithic or 2-4 segment masks with overlapping bounding boxes, '
+              'Tilt planes, fitted pupils, attribute updates and caller writes between multiplies), optionally a DFT propagation (random shape, prop_shape, oversampling, output mask, per-axis pixels), an Image '
               'plane and a propagation back. After every step the public views are read: field and intensity are compared with the dense '
               'zero-padded-plane model of the wavefront\'s documented fields (intensity == |field|^2 also where fields overlap), and '
               'insert(out, weight) is driven into accumulators of arbitrary shape (smaller, larger, other parity, missing the wavefront '
@@ -44,10 +48,13 @@ CLAIMED = {
     'C08': dict(
         design='7.1',
         text=('Seeded deterministic simulation: 1-3 simulated callers run programs (<= 12 steps each) of plane multiplications '
-              '(all five plane types, every public plane class, all three call forms) and DFT/FFT propagations over a shared pool, '
+              '(all five plane types, every public plane class, all four call forms incl. w *= p) and DFT/FFT propagations over a shared pool that '
+              'starts from wavefronts built with every constructor argument (type given or omitted, focal length, pixel scale, tilt) and holds '
+              'pupils with different focal lengths, '
               'interleaved by a seeded scheduler with injected refusals (biased to land right after a type transition), duplicate '
               'calls and cache/RNG perturbations. Every step is judged against the multiplication-rules table and the ptype/class '
               'table parsed at run time from the documentation; refused steps are bracketed by byte snapshots of both operands; '
+              'a new wavefront has the type it was given (none when given none); '
               'each caller\'s interleaved outcomes must equal its solo run. A directed prelude guarantees all 15 cells, the three '
               'propagation cases and every class x allowed type are exercised on every run. Exploration, not proof: the type '
               'machine is finite (and the prelude covers it completely), the surrounding programs are sampled.'),
@@ -60,8 +67,8 @@ CLAIMED = {
               'grids of either parity and both growing and shrinking between iterations, oversampling 1-3, scalar or commensurate per-axis '
               'pixel scales, monolithic or segmented pupils of either parity) through propagate_fft with ONE scratch buffer reused across '
               'the loop: pre-filled with NaN/inf/garbage, stale from the previous wavelength afterwards, sized exactly as '
-              'lentil.scratch_shape advertises, larger, or one short; refused calls (oversize shape, tilt-carrying wavefront from a Tilt '
-              'plane / Wavefront(tilt=) / fitted pupil, short scratch) are injected inside the loop, propagations are duplicated and the '
+              'lentil.scratch_shape advertises, larger, or one short, C- or Fortran-ordered or a window of a larger work area; refused calls '
+              '(oversize shape, tilt-carrying wavefront from a Tilt plane / Wavefront(tilt=) / fitted pupil / DispersiveTilt / Grism, short scratch) are injected inside the loop, propagations are duplicated and the '
               'scratch re-dirtied between duplicates. Oracles: scratch result == no-scratch result; both == the real propagate_dft '
               'evaluated at the wavelength the FFT result reports; result metadata; acceptance/refusal set; refusals leave scratch and '
               'wavefront bytes unchanged; earlier results stay byte-identical while the scratch is reused (no aliasing). Exploration.'),
@@ -71,12 +78,16 @@ CLAIMED = {
         design='7.2',
         text=('Seeded deterministic simulation of 2-4 callers sharing caller-owned arrays, planes, spectra and wavefronts: pipeline fragments '
               '(plane multiply, DFT/FFT propagation with scratch, tilt fitting both modes, rescale/resample/copy, dft2/idft2 with repeated '
-              'shapes and out=, Zernike, array utilities, shapes, detector chain, seeded noise models, spectrum arithmetic and queries) are '
+              'shapes and out=, Zernike, array utilities, shapes, detector chain, seeded noise models, spectrum arithmetic and queries, a shared '
+              'dispersive element used at several wavelengths, documented in-place operations on objects derived from shared ones, '
+              'one-argument-varied repeats of calls) are '
               'interleaved by a seeded scheduler together with cache-size changes/clears, global-RNG draws and reseeds, duplicate calls and '
               '(one run in four) read-only caller arrays. Oracles: byte snapshot of every store entry around every call (alias-aware '
               'whitelist for documented in-place calls); repeat = first; each caller\'s interleaved outcome sequence = its solo run in a '
               'pristine world; global RNG state unchanged around every seeded/deterministic call; construct-then-fit vs fit/update/refit '
-              'paths to the same plane state image identically (premise checked from public state); and every chunk\'s last run is '
+              'paths to the same plane state image identically (premise checked from public state); C10.fresh: sampled calls are re-issued on '
+              'public-state clones of their arguments in a pristine process (forked from a helper that never executes lentil) and must give the '
+              'same outcome -- "a result depends only on the current arguments" taken literally; and every chunk\'s last run is '
               're-executed as the first act of a freshly forked process (cold = warm), which detects cross-call global state the simulator '
               'does not know by name. Exploration: sampled histories, not all.'),
         note=('Trusts numpy/scipy; single-threaded BLAS so that same-process repeats are bitwise equal (re-validated by selftest-determinism). '
@@ -104,7 +115,7 @@ CLAIMED = {
         text=('Seeded deterministic simulation of a classical stateful object: an editor applies histories (4-25 steps) of '
               'crop/trim/pad/append(copy or in place)/resample/to to 1-3 spectra (uniform and non-uniform grids, unitless and flux-density '
               'values, all four wavelength units) while a reader (same or second caller) issues integrate/bin/sample and composite '
-              'linearity/additivity checks between any two edits; about 30% of edits are ones that must be refused (unsorted, duplicated or '
+              'linearity/additivity checks between any two edits, sometimes scaling in place the array a query returned and asking again; about 30% of edits are ones that must be refused (unsorted, duplicated or '
               'non-positive resample grid, touching/overlapping append, bad unit or method) -- the library\'s analogue of a crash between two '
               'writes -- and accepted crops/trims/pads are duplicated. After EVERY step, accepted or refused, every spectrum must be '
               'well-formed (strictly increasing positive wavelengths, one value per wavelength, asarray() usable); each edit\'s post-state is '
@@ -121,7 +132,8 @@ CLAIMED = {
               'model calls (Poisson and Gaussian shot noise, read noise, dark current with/without fixed-pattern noise, rule-07 dark '
               'current, power-spectrum surface error on square and non-square masks; int and array seeds) and unseeded cosmic-ray frames in '
               'an interleaved schedule while environment events draw from or reseed the global generator between steps, calls are '
-              'duplicated, and signals that must be refused (a negative pixel, a pixel above 9.22e18) are injected. Oracles: a seeded '
+              'duplicated, and signals that must be refused (a negative pixel -- also one that is tiny next to the frame peak --, an all-negative '
+              'frame, a pixel above 9.22e18) and dark rates at floating-point edges (just below an integer, 2**40+1) are injected. Oracles: a seeded '
               'result is bit-identical across repeats, across positions in the schedule and across global-RNG states (interleaved pass vs '
               'solo pass started from a different global seed); the global state is untouched by every seeded call; different seeds give '
               'different frames; support (integer, non-negative, floor(rate), zero outside the mask, exact RMS, refusals in both shot-noise '
